@@ -13,3 +13,10 @@ pub use server::{RenetServer, ServerEvent};
 pub use bytes::Bytes;
 
 pub type ClientId = u64;
+
+/// Verification hooks: re-exports of the crate's own wire format so that external
+/// conformance harnesses can build and read packets without duplicating it.
+#[cfg(feature = "verif")]
+pub mod verif {
+    pub use crate::packet::{Packet, SerializationError, Slice, SLICE_SIZE};
+}
